@@ -1,12 +1,14 @@
 #!/bin/sh
-# false-alarm sweep: every ready check, several seeds, quick tier, against a snapshot of /repo
-export VERIF_REPO=$VP_RUN_REPO
+# false-alarm sweep: every ready check, several seeds, quick (or $SWEEP_TIER) tier, against a snapshot of /repo ($VP_RUN_REPO) or /repo.
+# Usage (from a vp run snapshot):  vp run --with-repo -- tools/sweep.sh      env: SWEEP_SEEDS, SWEEP_PROPS, SWEEP_TIER, SWEEP_JOBS
+[ -n "$VP_RUN_REPO" ] && export VERIF_REPO=$VP_RUN_REPO
 ./setup.sh > setup.log 2>&1
-for s in ${SWEEP_SEEDS:-101 202 303}; do
-  for p in ${SWEEP_PROPS:-C01 C02 C03 C04 C05 C06 C07 C08 C09 C10 C11 C12 C13 C14 C15 C16 C17 C18 C19 C20}; do
-    t0=$(date +%s)
-    VERIF_SEED=$s ./check $p > out_${p}_$s.log 2>&1
-    rc=$?
-    echo "seed=$s $p rc=$rc $(( $(date +%s)-t0 ))s $(grep -c KNOWN-FINDING out_${p}_$s.log)kf $(grep VIOLATION out_${p}_$s.log | head -1 | cut -c1-120)"
-  done
-done
+for s in ${SWEEP_SEEDS:-1 2 3}; do
+  for p in ${SWEEP_PROPS:-C01 C02 C03 C04 C05 C06 C07 C08 C09 C10 C11 C12 C13 C14 C15 C16 C17 C18 C19 C20}; do echo "$s $p"; done
+done | xargs -P ${SWEEP_JOBS:-4} -L 1 sh -c '
+  s=$0; p=$1; t0=$(date +%s)
+  VERIF_SEED=$s ./check $p --tier ${SWEEP_TIER:-quick} > out_${p}_$s.log 2>&1
+  rc=$?
+  echo "seed=$s $p rc=$rc $(( $(date +%s)-t0 ))s $(grep -c KNOWN-FINDING out_${p}_$s.log)kf $(grep VIOLATION out_${p}_$s.log | head -1 | cut -c1-120)"
+  [ $rc -ne 0 ] && grep "reason\[" out_${p}_$s.log | head -3 | cut -c1-300
+  true'
